@@ -58,6 +58,9 @@ checks = {
  "C04": ("E2", E2,
    "Breadth-first search over all programs up to depth 3 (thorough 4) whose steps apply any of 25 stream operations (13 set operations, 5 stream-set operations + the nested in-place Remove) to any live collection of a growing pool with any live collection as argument (indices -1/0/1/2/100 for Remove), for both families; after every step every live collection is re-observed (ToArray / Keys / contents, Len, Get, Contains, ToArray detached) and must equal its model; the documented in-place mutators update the model object in place; states are de-duplicated on contents + object identity + backing-array sharing + spare capacity of the whole pool.",
    "Bounded program depth and pool; constructors adopt their argument; interface{} sets compared by key (that family stores its own placeholder values).", "DESIGN.md §3, §5 C04"),
+ "C05": ("E3", E3,
+   "All pairs of lists over {0,1,2} up to length 3 (thorough 4) incl. nil and empty, all triples up to length 2 (thorough 3), for the slice functions (Union, Intersection, Minus, Difference, IsSubset, IsSuperset, Distinct and the ForInterface twins) and for Stream (Intersection, Minus, Distinct, Extend+Distinct, IsSubset, IsSuperset, and two unions from one derived operand); all pairs of key sets for MapSet; all pairs of key->stream maps over 2 keys x {absent, nil, [], [1], [1 2], [2 2]} for StreamSet (Union, Intersection, MinusStreams, Minus, IsSubsetByKey, IsSupersetByKey). Non-empty operands: membership characterisation, no duplicates, first-operand order, A = (A-B) u (A n B), subset <=> empty difference. All operands: generic and interface{} twin return the same answer, nothing panics, operands unchanged.",
+   "Finite alphabets; sets compared by key.", "DESIGN.md §4, §5 C05"),
 }
 
 not_yet = "check not built yet in this round (see DESIGN.md §9 build order); no claim made"
